@@ -1,3 +1,8 @@
+#[cfg(rva_verif)]
+use crate::verif_collections::HashMap;
+#[cfg(rva_verif)]
+use std::collections::BTreeMap;
+#[cfg(not(rva_verif))]
 use std::collections::{BTreeMap, HashMap};
 use std::fmt::Display;
 use std::hash::Hash;
@@ -59,6 +64,27 @@ impl<T: PartialEq + Eq + Hash> AvailableValueMap<T> {
     }
 }
 
+#[cfg(rva_verif)]
+impl<T: PartialEq + Eq + Hash> IntoIterator for AvailableValueMap<T> {
+    type Item = (T, AvailableValue);
+    type IntoIter = crate::verif_collections::IntoIter<T, AvailableValue>;
+
+    fn into_iter(self) -> Self::IntoIter {
+        self.map.into_iter()
+    }
+}
+
+#[cfg(rva_verif)]
+impl<'a, T: PartialEq + Eq + Hash> IntoIterator for &'a AvailableValueMap<T> {
+    type Item = (&'a T, &'a AvailableValue);
+    type IntoIter = crate::verif_collections::Iter<'a, T, AvailableValue>;
+
+    fn into_iter(self) -> Self::IntoIter {
+        self.map.iter()
+    }
+}
+
+#[cfg(not(rva_verif))]
 impl<T: PartialEq + Eq + Hash> IntoIterator for AvailableValueMap<T> {
     type Item = (T, AvailableValue);
     type IntoIter = std::collections::hash_map::IntoIter<T, AvailableValue>;
@@ -68,6 +94,7 @@ impl<T: PartialEq + Eq + Hash> IntoIterator for AvailableValueMap<T> {
     }
 }
 
+#[cfg(not(rva_verif))]
 impl<'a, T: PartialEq + Eq + Hash> IntoIterator for &'a AvailableValueMap<T> {
     type Item = (&'a T, &'a AvailableValue);
     type IntoIter = std::collections::hash_map::Iter<'a, T, AvailableValue>;
